@@ -33,7 +33,7 @@ PROPS["C02"] = pbt(
                 "sections/keys/values are known by construction; 160k (quick) / 5M (thorough) files over all 21 "
                 "delimiter x comment configurations, class floors enforced. Shows presence of violations, not absence."),
     level_note="trusts the grammar printer and the model in src/common (not the parser); C locale; tmpfs scratch",
-    quick={"cases": 800000},
+    quick={"cases": 480000},
     thorough={"cases": 16000000},
     floors={"delim_nonblank": 0.10, "delim_blank": 0.10, "delim_mixed": 0.10, "delim_none": 0.05,
             "quoted": 0.15, "trailing_comment": 0.15, "continuation": 0.08, "duplicate_key": 0.10,
@@ -75,7 +75,7 @@ PROPS["C03"] = pbt(
                 "specification (visible values, nothing invented, multiplicities, key and section order, inputs "
                 "unchanged, result independent of freed inputs)."),
     level_note="trusts the specification M1-M7 as transcription of the property; objects are built only through the public API",
-    quick={"cases": 400000, "modes": [["exh", "3", str(k), "8"] for k in range(8)] + [["empties"]]},
+    quick={"cases": 160000, "modes": [["exh", "3", str(k), "16"] for k in range(16)] + [["empties"]]},
     thorough={"cases": 3000000, "modes": [["exh", "4", str(k), "16"] for k in range(16)] + [["empties"]]},
     floors={"base_reopens_section": 0.10, "override_only_groupless": 0.10, "base_nonleading_groupless": 0.08},
 )
@@ -382,7 +382,7 @@ PROPS["C20"] = pbt(
                 "so a leak on any failure path is attributed to the case that caused it and can be shrunk; 24k "
                 "(quick) / 1M (thorough) scenarios, each run under two heap-fill patterns."),
     level_note="allocation-failure paths are not injected; LeakSanitizer reachability semantics (memory reachable from library statics is not a leak)",
-    quick={"cases": 48000},
+    quick={"cases": 32000},
     thorough={"cases": 1000000},
     floors={"fault_in_dropin|layered_read": 0.30, "fault_callback_rejection|layered_read": 0.10, "fault_malformed_line|layered_read": 0.10,
             "fault_dangling_symlink|layered_read": 0.08, "fault_vanished_in_callback|layered_read": 0.08,
